@@ -1,6 +1,6 @@
 (* Tie theorems for _rpc/_request.py (Request, Response) against Model/Request.v; conventions as in Proofs/Flow_rpc_pdu.v. *)
-From V Require Import Prelude.Base Prelude.PyInt Prelude.PySlice Prelude.PyAst Prelude.PyWorld gen.F_rpc.
-From V Require Import Model.Pdu Model.Request Model.RpcLoop Model.Bind Model.Verification Model.Epm Flow.World_rpc Proofs.Flow_rpc_lib Proofs.Flow_rpc_pdu.
+From V Require Import Prelude.Base Prelude.PyInt Prelude.PySlice Prelude.PyStr Prelude.PyAst Prelude.PyWorld gen.F_rpc.
+From V Require Import Model.Pdu Model.Request Model.RpcLoop Model.Bind Model.Verification Model.Epm Flow.World_rpc Proofs.Flow_rpc_lib Proofs.Flow_rpc_wf.
 Local Open Scope string_scope.
 Local Open Scope list_scope.
 Local Open Scope Z_scope.
@@ -23,19 +23,10 @@ Lemma flow_request_pack mf fuel m :
   run (W mf) fuel k_flow_request_pack [VO (ORequest m)] = chk (request_ranges m) (request_pack m).
 Proof. unfold request_pack, request_body, opt_sec_trailer_pack, request_ranges, chk. destruct m as [h [st|] ? ? ? [u|] ?]; tie. Qed.
 
-Lemma wf_request_ranges m : wf_request m = true -> request_ranges m = true.
-Proof.
-  unfold wf_request, request_ranges. intros H.
-  split_wf H. wf_msg.
-Qed.
-Lemma wf_response_ranges m : wf_response m = true -> response_ranges m = true.
-Proof.
-  unfold wf_response, response_ranges. intros H.
-  split_wf H. wf_msg.
-Qed.
 Lemma flow_request_pack_wf mf fuel m : wf_request m = true ->
   run (W mf) fuel k_flow_request_pack [VO (ORequest m)] = Ok (VB (request_pack m)).
 Proof. intros H. rewrite flow_request_pack, (wf_request_ranges m H). reflexivity. Qed.
+
 Lemma flow_response_pack_wf mf fuel m : wf_response m = true ->
   run (W mf) fuel k_flow_response_pack [VO (OResponse m)] = Ok (VB (response_pack m)).
 Proof. intros H. rewrite flow_response_pack, (wf_response_ranges m H). reflexivity. Qed.
